@@ -318,16 +318,20 @@ def _norms(check: Check):
   sq = repo.func(TU, 'tree_l2_squared')
   ff = FuncFlow.of(repo, sq)
   ok = False
-  for _, rv in ff.returns():
-    if isinstance(rv, ast.Call) and ff.ext(rv.func) == 'builtins.sum' and rv.args and isinstance(rv.args[0], ast.GeneratorExp):
-      g = rv.args[0]
-      e = g.elt
-      v = g.generators[0].target
-      if isinstance(e, ast.Call) and ff.ext(e.func) in ('jax.numpy.vdot', 'jax.numpy.dot') and len(e.args) == 2 and all(
-          isinstance(a, ast.Name) and isinstance(v, ast.Name) and a.id == v.id for a in e.args):
-        it = g.generators[0].iter
-        if isinstance(it, ast.Call) and ff.ext(it.func) in ('jax.tree_util.tree_leaves', 'jax.tree.leaves') and ff.param_of(it.args[0]) == sq.positional_params[0]:
-          ok = True
+  for _, rv0 in ff.returns():
+    for rv in (ff.expand(rv0) if rv0 is not None else []):
+      if not (isinstance(rv, ast.Call) and ff.ext(rv.func) == 'builtins.sum' and rv.args):
+        continue
+      for g in ff.expand(rv.args[0]):
+        if not isinstance(g, (ast.GeneratorExp, ast.ListComp)):
+          continue
+        e = g.elt
+        v = g.generators[0].target
+        if isinstance(e, ast.Call) and ff.ext(e.func) in ('jax.numpy.vdot', 'jax.numpy.dot') and len(e.args) == 2 and all(
+            isinstance(a, ast.Name) and isinstance(v, ast.Name) and a.id == v.id for a in e.args) and not g.generators[0].ifs:
+          for it in ff.expand(g.generators[0].iter):
+            if isinstance(it, ast.Call) and ff.ext(it.func) in ('jax.tree_util.tree_leaves', 'jax.tree.leaves') and ff.param_of(it.args[0]) == sq.positional_params[0]:
+              ok = True
   if not ok:
     # other accepted form: an explicit accumulation loop over the leaves,  acc = acc + vdot(x, x)  /  acc += vdot(x, x)
     for n in ff.cfg.nodes:
